@@ -417,7 +417,7 @@ func runC02(tier string, _ []string) int {
 		step(e)
 		var v1, v2 *syncNodeRec
 		if step(nil) {
-			v1, e = create("D", g1, "variable")
+			v1, e = create("D", g1, []string{"variable", "device"}[i%2])
 			step(e)
 		}
 		if step(nil) {
@@ -495,7 +495,8 @@ func runC02(tier string, _ []string) int {
 				if p := pick(side); p != nil && p.Type == "group" && !p.Deleted {
 					par = p
 				}
-				_, e := create(side, par, []string{"group", "variable"}[r.Intn(2)])
+				// (a device-type node below the device is a three-tier set-up: its edge is an ordinary shared edge)
+				_, e := create(side, par, []string{"group", "variable", "device"}[r.Intn(3)])
 				step(e)
 			case roll < 72:
 				step(setDeleted(side, n, !n.Deleted))
